@@ -413,6 +413,10 @@ func TruncFunc(spec1, spec2 Spec) func(string) string {
 		if nextSep == -1 {
 			return comp
 		}
-		return comp[:pos+nextSep]
+		comp = comp[:pos+nextSep]
+		for strings.HasSuffix(comp, Sep) { // trim empty trailing fields
+			comp = comp[:len(comp)-sepLen]
+		}
+		return comp
 	}
 }
